@@ -65,10 +65,38 @@ fn colliding_texts(spec: &Spec) -> std::collections::BTreeSet<String> {
     out
 }
 
+/// Does the batch name more distinct statements (Parse, Bind, Describe-statement) than one
+/// server connection's cache can hold at a time?
+fn batch_exceeds_cache(msgs: &[Msg], cache_size: usize) -> bool {
+    let mut names: BTreeSet<String> = BTreeSet::new();
+    for m in msgs {
+        let mut r = proto::Reader::new(&m.body);
+        let name = match m.ty {
+            b'P' => r.cstr().unwrap_or_default(),
+            b'B' => {
+                let _ = r.cstr();
+                r.cstr().unwrap_or_default()
+            }
+            b'D' => {
+                if r.u8().unwrap_or(0) != b'S' {
+                    continue;
+                }
+                r.cstr().unwrap_or_default()
+            }
+            _ => continue,
+        };
+        if !name.is_empty() {
+            names.insert(name);
+        }
+    }
+    cache_size > 0 && names.len() > cache_size
+}
+
 pub fn c08_cache(cx: &mut Ctx) {
     let h = cx.h;
     let cache_size = cx.param_u64("cache_size", 0) as usize;
     let colliding = colliding_texts(cx.spec);
+    let mut overfull_tags: BTreeSet<Tag> = BTreeSet::new();
     // ---- (1) per-client model of a direct connection: name -> (sql, types) ----
     for c in h.clients.values() {
         if !is_data_client(c) || c.auth_result != "ok" {
@@ -137,6 +165,17 @@ pub fn c08_cache(cx: &mut Ctx) {
             if !step_ok(s) {
                 continue;
             }
+            // A batch that names more statements than a server connection's cache holds: the
+            // known finding (the pooler closes the batch's own earlier statement to make room);
+            // named in the fingerprint so that nothing else hides behind it.
+            let overfull = batch_exceeds_cache(&msgs, cache_size);
+            let cause = if overfull { "/cause=batch_names_more_statements_than_cache_holds" } else { "" };
+            if overfull {
+                cx.probe("c08_batch_exceeds_cache");
+                for t in &s.tags {
+                    overfull_tags.insert(*t);
+                }
+            }
             // ---- (2) what the backend actually executed for each of those Binds ----
             for (tag, sql, types, name) in &expected {
                 let mut found = false;
@@ -152,8 +191,8 @@ pub fn c08_cache(cx: &mut Ctx) {
                     cx.probe("c08_execute_checked");
                     if &e.rec.sql != sql {
                         let collide = colliding.contains(sql) && colliding.contains(&e.rec.sql);
-                        let fp = if collide { "C08/wrong_statement_executed/hash_concat_collision" } else { "C08/wrong_statement_executed" };
-                        cx.v("C08", "wrong_statement_executed", fp, e.rec.seq, format!("client {} bound statement {:?} (it prepared {:?}) but backend pid {} executed {:?} as {}", c.id, name, sql, h.backend_conns[e.conn].pid, e.rec.sql, e.rec.stmt_name));
+                        let fp = format!("{}{}", if collide { "C08/wrong_statement_executed/hash_concat_collision" } else { "C08/wrong_statement_executed" }, cause);
+                        cx.v("C08", "wrong_statement_executed", &fp, e.rec.seq, format!("client {} bound statement {:?} (it prepared {:?}) but backend pid {} executed {:?} as {}", c.id, name, sql, h.backend_conns[e.conn].pid, e.rec.sql, e.rec.stmt_name));
                     } else if &e.rec.types != types {
                         cx.v("C08", "wrong_parameter_types", "C08/wrong_parameter_types", e.rec.seq, format!("client {} bound statement {:?} prepared with types {:?} but backend pid {} ran it with types {:?} ({})", c.id, name, types, h.backend_conns[e.conn].pid, e.rec.types, e.rec.stmt_name));
                     }
@@ -178,7 +217,7 @@ pub fn c08_cache(cx: &mut Ctx) {
                     what = "hash_concat_collision".to_string();
                 }
                 let errs: Vec<String> = s.msgs.iter().filter(|m| m.ty == b'E').map(|m| proto::error_fields(&m.body).get(&'M').cloned().unwrap_or_default()).collect();
-                cx.v("C08", "differs_from_direct_session", &format!("C08/differs_from_direct_session/{}", what), s.done_seq, format!("client {} step {}: through the pooler the reply was [{}], a direct session answers [{}] (first difference at message {}); errors seen: {:?}", c.id, s.idx, gt, wt, at, errs));
+                cx.v("C08", "differs_from_direct_session", &format!("C08/differs_from_direct_session/{}{}", what, cause), s.done_seq, format!("client {} step {}: through the pooler the reply was [{}], a direct session answers [{}] (first difference at message {}); errors seen: {:?}", c.id, s.idx, gt, wt, at, errs));
             }
             let got1 = s.msgs.iter().filter(|m| m.ty == b'1').count();
             let want1 = ideal_out.iter().filter(|m| m.ty == b'1').count();
@@ -206,7 +245,9 @@ pub fn c08_cache(cx: &mut Ctx) {
         if e.rec.stmt_name.starts_with("PGCAT_") {
             if let Some(code) = &e.rec.error {
                 if code == "42P05" || code == "26000" {
-                    cx.v("C08", "backend_statement_table_error", &format!("C08/backend_statement_table_error/{}", code), e.rec.seq, format!("backend pid {} answered {} for pooler statement {} ({:?})", conn.pid, code, e.rec.stmt_name, e.rec.via));
+                    let in_overfull_batch = conn.units.iter().any(|u| u.first_seq <= e.rec.seq && e.rec.seq <= u.last_seq && u.tags.iter().any(|t| overfull_tags.contains(t)));
+                    let cause = if in_overfull_batch { "/cause=batch_names_more_statements_than_cache_holds" } else { "" };
+                    cx.v("C08", "backend_statement_table_error", &format!("C08/backend_statement_table_error/{}{}", code, cause), e.rec.seq, format!("backend pid {} answered {} for pooler statement {} ({:?})", conn.pid, code, e.rec.stmt_name, e.rec.via));
                 }
             }
             if e.rec.via == Via::Parse && e.rec.error.is_none() {
